@@ -110,6 +110,17 @@ def replace_typevars(ty: t.Any,
         return replacements.get(ty, ty)
     if isinstance(ty, t.Sequence) and not isinstance(ty, (str, bytes)):
         return type(ty)(replace_typevars(t, replacements) for t in ty)  # type: ignore
+    if isinstance(ty, dict):
+        # struct literal: `{'a': T}`
+        return type(ty)((k, replace_typevars(v, replacements)) for (k, v) in ty.items())  # type: ignore
+    if isinstance(ty, type) and '__pane_boundvars__' in ty.__dict__:
+        # pane dataclass subscripted with type variables (`Inner[T]`, `Inner[Inner[T]]`): a class,
+        # which `get_origin`/`get_args` don't see through
+        bound = tuple(ty.__dict__['__pane_boundvars__'].values())
+        args = tuple(replace_typevars(v, replacements) for v in bound)
+        if all(new is old or new == old for (new, old) in zip(args, bound)):
+            return ty
+        return ty.__dict__['__origin__'][args]
 
     base = t.get_origin(ty) or ty
     args = t.get_args(ty)
